@@ -178,14 +178,19 @@ theorem set_upd (s : MState) (now : Int) (k v : Bytes) (keep : Bool) :
     | false => exact .trans (.setVal s1 _) (.trans (.setExp _ 0) (.trans (.signal _) (.emit _ _)))
 
 theorem getSet_upd (s : MState) (now : Int) (k v : Bytes) :
-    Upd k (writeKey s now k (some (.str []))).1 (Api.getSet s now k v).1 := by
+    Upd k (writeKey s now k none).1 (Api.getSet s now k v).1 := by
   unfold Api.getSet
-  generalize writeKey s now k (some (.str [])) = w
+  generalize writeKey s now k none = w
   obtain ⟨s1, b⟩ := w
   simp only
-  cases asStr s1 k with
-  | none => exact .refl _
-  | some o => exact .trans (.setVal s1 _) (.trans (.setExp _ 0) (.trans (.signal _) (.emit _ _)))
+  cases b with
+  | false =>
+    exact .trans (.newKey s1 none _) (.trans (.setVal _ _) (.trans (.setExp _ 0) (.trans (.signal _) (.emit _ _))))
+  | true =>
+    simp only [Bool.not_true, Bool.false_eq_true, if_false]
+    cases asStr s1 k with
+    | none => exact .refl _
+    | some o => exact .trans (.setVal s1 _) (.trans (.setExp _ 0) (.trans (.signal _) (.emit _ _)))
 
 theorem setNX_upd (s : MState) (now : Int) (k v : Bytes) (keep : Bool) :
     Upd k (writeKey s now k none).1 (Api.setNX s now k v keep).1 := by
@@ -305,10 +310,9 @@ def Matches : Out → Reply → Prop
 def Refines (s : MState) (now : Int) (ks : Keyspace) : Prop :=
   ∀ k, live s now k = (Keyspace.get ks k).map Val.str
 
-/-- the inputs outside the finding regions of sections 2–4 (F4, F8, F10, F12, negative offsets)
-    and inside the part of SETRANGE the model follows -/
+/-- the inputs outside the finding regions of sections 2–4 (F4, F8, F10, negative offsets) and
+    inside the part of SETRANGE the model follows -/
 def Safe (ks : Keyspace) : Cmd → Prop
-  | .getset k _ => Keyspace.exists_ ks k = true
   | .setrange k off d =>
     0 ≤ off ∧ inInt64 (off + (d.length : Int)) = true ∧
     off + (d.length : Int) - (((Keyspace.get ks k).getD []).length : Int) ≤ 1073741824 ∧
@@ -574,7 +578,7 @@ theorem ref_get (s : MState) (now : Int) (ks : Keyspace) (k : Bytes) (hi : Inv s
     rw [g2]; exact i2
 
 theorem ref_getset (s : MState) (now : Int) (ks : Keyspace) (k v : Bytes) (hi : Inv s) (hw : WLocks s)
-    (hR : Refines s now ks) (hs : Safe ks (.getset k v)) :
+    (hR : Refines s now ks) :
     StepOk (exec s now (.getset k v)).1 (exec s now (.getset k v)).2 now (step ks (.getset k v)).1
       (step ks (.getset k v)).2 := by
   obtain ⟨hstr, hso⟩ := refines_str hR k
@@ -582,11 +586,9 @@ theorem ref_getset (s : MState) (now : Int) (ks : Keyspace) (k v : Bytes) (hi : 
   obtain ⟨i1, i2, i3⟩ := write_step (getSet_upd s now k v) hi hw (getSet_sorted s now k v hi.sorted)
   refine ⟨?_, refines_write hR i3 v (live_of_hot h2), i1, i2⟩
   show Matches (Api.getSet s now k v).2 (match Keyspace.get ks k with | some b => .bulk b | none => .nil)
-  rw [h1, hso]
-  have hex : Keyspace.exists_ ks k = true := hs
-  unfold Keyspace.exists_ at hex
-  cases hg : Keyspace.get ks k with
-  | none => rw [hg] at hex; cases hex
+  rw [h1, hR k]
+  cases Keyspace.get ks k with
+  | none => trivial
   | some b => exact rfl
 
 theorem ref_setnx (s : MState) (now : Int) (ks : Keyspace) (k v : Bytes) (hi : Inv s) (hw : WLocks s)
@@ -865,7 +867,7 @@ theorem exec_refines (s : MState) (now : Int) (ks : Keyspace) (c : Cmd) (hi : In
   cases c with
   | set k v => exact ref_set s now ks k v hi hw hR
   | get k => exact ref_get s now ks k hi hw hR
-  | getset k v => exact ref_getset s now ks k v hi hw hR hs
+  | getset k v => exact ref_getset s now ks k v hi hw hR
   | setnx k v => exact ref_setnx s now ks k v hi hw hR
   | mset kvs => exact ref_mset s now ks kvs hi hw hR
   | append k d => exact ref_append s now ks k d hi hw hR
